@@ -67,7 +67,7 @@ for _nm, _l in positions.STR_POSITIONS:
 for _nm, _l in positions.NUM_POSITIONS:
     STR_USES.append(("position:" + _nm + ":in-LEN", positions.fill(_l, "{n}", "LEN({X}$)")))
     NUM_USES.append(("position:" + _nm + ":implicit-array", positions.fill(_l, "{n}", "E(3)")))
-CFG_NAMES = [("X$", False, 100), ("X$", True, 200), ("Y$", False, 300)]
+CFG_NAMES = [("X$", False, 100), ("X$", True, 200), ("Y$", False, 300), ("X9$", True, 150), ("X9$", False, 120), ("XY$", True, 90)]
 
 
 def main():
@@ -77,19 +77,19 @@ def main():
     wd = common.workdir(PID)
     thorough = T == "thorough"
     # option cube: default size x config subset x initialise  (as sequences over 3 binary digits + size + init)
-    cube = gen.gen_seqs(rep, wd, "cube", 2, [0, 1], [0, 1], [(a, b) for a in (0, 1) for b in (0, 1)], 5)
-    cube = [c for c in cube if len(c) == 5]
+    cube = gen.gen_seqs(rep, wd, "cube", 2, [0, 1], [0, 1], [(a, b) for a in (0, 1) for b in (0, 1)], 8, maxcount=8)
+    cube = [c for c in cube if len(c) == 8]
     plan = []
     for use, tpl in STR_USES:
-        for X in (["X", "Y", "X9"] if thorough else ["X"]):
+        for X in (["X", "Y", "X9", "XY"] if thorough else (["X", "X9"] if not use.startswith("position:") or len(plan) % 3 == 0 else ["X"])):
             lines = [l.replace("{X}", X) for l in tpl] + ["90 END"]
             for c in (cube if thorough else gen.sample(rng, [c for c in cube if c[0]], 3) + gen.sample(rng, cube, 1) if use.startswith("position:") else gen.sample(rng, cube, 8)):
                 size = 80 if c[0] else 32
-                cfg = [n for n, bit in zip(CFG_NAMES, c[1:4]) if bit]
-                plan.append({"lines": lines, "use": use, "size": size, "cfg": cfg, "init": bool(c[4]), "prefix": False})
+                cfg = [n for n, bit in zip(CFG_NAMES, c[1:7]) if bit]
+                plan.append({"lines": lines, "use": use, "size": size, "cfg": cfg, "init": bool(c[7]), "prefix": False})
     for use, tpl in NUM_USES:
         for c in (cube[::2] if thorough else gen.sample(rng, cube, 2 if use.startswith("position:") else 4)):
-            plan.append({"lines": tpl + ["90 END"], "use": use, "size": 80 if c[0] else 32, "cfg": [], "init": bool(c[4]), "prefix": bool(c[1])})
+            plan.append({"lines": tpl + ["90 END"], "use": use, "size": 80 if c[0] else 32, "cfg": [], "init": bool(c[7]), "prefix": bool(c[1])})
     payload = []
     for p in plan:
         cfgmap = {(n + ("()" if arr else "")): sz for n, arr, sz in p["cfg"]}
